@@ -2,7 +2,10 @@
    Property theorems only.  Models: Model/GetNBest.v, Model/HighestAverages.v, Model/Condorcet.v,
    Model/QuotaDistributor.v, Model/STV.v; proofs: Proofs/Scale_proofs.v, Proofs/Minimax_proofs.v, Proofs/LRScale_proofs.v,
    Proofs/STVScale_proofs.v, Proofs/Schulze_proofs.v.  All numbers are unbounded Z / Q: the statements quantify over
-   every positive scale factor and every magnitude (10^30 and 2^53 are not special). *)
+   every positive scale factor and every magnitude (10^30 and 2^53 are not special).
+   Third / fourth batch: Model/Threshold.v, Model/Conditioned.v, Model/Star.v, Model/Hybrids.v, Model/Elimination.v,
+   Model/AllocScore.v, Model/PureProp.v; proofs: Proofs/ScaleThr_proofs.v, ScaleStar_proofs.v, ScaleHyb_proofs.v,
+   ScaleAlloc_proofs.v, ScalePP_proofs.v.  docs/C11.md maps every configuration of harness/evalreg.py to its theorem. *)
 From Coq Require Import ZArith QArith List Bool.
 From VL Require Import Prelude.PyDict Model.GetNBest Model.HighestAverages Model.Condorcet
      Proofs.GetNBest_proofs Proofs.QOrd Proofs.Scale_proofs Proofs.Minimax_proofs Proofs.LRScale_proofs Proofs.Schulze_proofs
